@@ -59,6 +59,7 @@ package leader
 //@ field kvElection.termCancel        guarded_by(mu)
 //@ field kvElection.onPromote          guarded_by(mu)
 //@ field kvElection.onDemote           guarded_by(mu)
+//@ field kvElection.stopsWaiting       guarded_by(mu) counter
 //@ field kvElection.healthFailureCount owned_by(heartbeatLoop,handleHealthCheckFailure)
 //@ field kvElection.stopped            ghost sort Bool write_under(mu)
 //@ field kvElection.revSet             ghost sort Bool monotone    // becomeLeader has stored an own revision at least once
@@ -116,6 +117,7 @@ package leader
 //@ objinv disconnectHandler C11.handler_has_election: this.election != nil
 
 //@ lockinv kvElection.mu C18+C02+C01.claim_iff_state:        isLeader == (state == "LEADER")
+//@ lockinv kvElection.mu C20+C09.waiting_stops_counted: stopsWaiting >= caller.stopsAnnouncedHere && caller.stopsAnnouncedHere >= 0
 //@ lockinv kvElection.mu C02.claim_implies_running:  isLeader ==> (ctx != nil && !stopped)
 //@ lockinv kvElection.mu C18+C02+C09.stopped_implies_state:  stopped ==> state == "STOPPED"
 //@ lockinv kvElection.mu C09+C19.cancel_set_with_ctx:    ctx != nil ==> cancel != nil
@@ -448,6 +450,7 @@ package leader
 //@   on call ConnectionMonitor.OnReconnect as c assert C11.wires_reconnect_handler: isfunc(c.arg0, "kvElection.handleReconnect")
 //@   ensures C11.monitor_wired: result == nil && e.connectionMonitor != nil ==> calls(ConnectionMonitor.Start) == 1 && calls(ConnectionMonitor.OnDisconnect) == 1 && calls(ConnectionMonitor.OnReconnect) == 1
 //@   on call becomeFollower assert C07+C08.rounds_never_demote: false
+//@   on call wg.Add assert C20+C09.no_new_run_under_a_waiting_stop: e.stopsWaiting == 0
 
 //@ func (e *kvElection) attemptAcquireWithRetry(ctx)
 //@   tags C17 C06 C07
@@ -612,6 +615,10 @@ package leader
 //@   on unlock kvElection.mu set firstUnlock = false
 //@   on load kvElection.onDemote as l when l.value == nil set demoteNilSeen = true
 //@   on call wg.Wait assert C09.stop_waits_time_boxed: inspawn()
+//@   ghost stopsAnnouncedHere Int = 0
+//@   on store kvElection.stopsWaiting as s set stopsAnnouncedHere = stopsAnnouncedHere + s.value - s.old
+//@   on call wg.Wait assert C20+C09.stop_wait_is_announced: stopsAnnouncedHere == 1
+//@   on return assert C20+C09.stop_wait_is_closed: stopsAnnouncedHere == 0
 //@   on select as s assert C09.stop_waits_time_boxed: s.blocking ==> s.hasAfter
 //@   on call time.After as a assert C09.stop_wait_bound: a.d == 5000000000
 //@   ensures C08.demote_iff_claim_cleared: !ctxNilL ==> (wasLeaderL ? (calls(onDemote) == 1 || (calls(onDemote) == 0 && demoteNilSeen)) : calls(onDemote) == 0)
@@ -645,6 +652,10 @@ package leader
 //@   on call KeyValue.Delete set mayDelete = opts.DeleteKey && wasLeaderL
 //@   on call RevisionDeleter.DeleteRevision set mayDelete = opts.DeleteKey && wasLeaderL
 //@   on call wg.Wait assert C09.stop_waits_time_boxed: inspawn()
+//@   ghost stopsAnnouncedHere Int = 0
+//@   on store kvElection.stopsWaiting as s set stopsAnnouncedHere = stopsAnnouncedHere + s.value - s.old
+//@   on call wg.Wait assert C20+C09.stop_wait_is_announced: stopsAnnouncedHere == 1
+//@   on return assert C20+C09.stop_wait_is_closed: stopsAnnouncedHere == 0
 //@   on select as s assert C09.stop_waits_time_boxed: s.blocking ==> s.hasAfter
 //@   on select as s assert C09.stop_waits_honour_the_callers_context: s.blocking ==> s.hasDone && s.doneCtx == ctx
 //@   ensures C08.demote_iff_claim_cleared: result == nil && !ctxNilL ==> (wasLeaderL ? (calls(onDemote) + scalls(onDemote) == 1 || (calls(onDemote) + scalls(onDemote) == 0 && demoteNilSeen)) : calls(onDemote) + scalls(onDemote) == 0)
